@@ -8,4 +8,7 @@ theorem declaredOutsideCodes_spelled :
 theorem declaredSharingCodes_spelled :
     declaredSharingCodes = declaredSharing.map (fun s => s.toList.map Char.toNat) := by decide
 
+theorem declaredDbEditorCodes_spelled :
+    declaredDbEditorCodes = declaredDbEditors.map (fun s => s.toList.map Char.toNat) := by decide
+
 end Effects
